@@ -151,11 +151,26 @@ void vp_shim_arm(int on) {
     if (on) g_count = 0;
 }
 
-static void logline(const char *call, const char *cls, const char *raw, const char *phys, long result, int err, const char *tag) {
+/* paths may hold tabs, newlines and backslashes (legal in file names): they are written escaped, the reader undoes it */
+static void esc_path(const char *in, char *out, size_t cap) {
+    size_t o = 0;
+    for (; in && *in && o + 3 < cap; in++) {
+        if (*in == '\t') { out[o++] = '\\'; out[o++] = 't'; }
+        else if (*in == '\n') { out[o++] = '\\'; out[o++] = 'n'; }
+        else if (*in == '\\') { out[o++] = '\\'; out[o++] = '\\'; }
+        else out[o++] = *in;
+    }
+    out[o] = 0;
+}
+
+static void logline(const char *call, const char *cls, const char *raw_in, const char *phys_in, long result, int err, const char *tag) {
     if (g_logfd < 0 || ((!g_armed || g_paused) && g_mode != 1)) return;
-    char line[2 * PATH_MAX + 256];
+    char line[4 * PATH_MAX + 256];
+    char raw[2 * PATH_MAX], phys[2 * PATH_MAX];
+    esc_path(raw_in, raw, sizeof raw);
+    esc_path(phys_in, phys, sizeof phys);
     long seq = __sync_add_and_fetch(&g_seq, 1);
-    int n = snprintf(line, sizeof line, "%ld\t%s\t%s\t%s\t%s\t%ld\t%d%s%s\n", seq, call, cls, raw ? raw : "", phys ? phys : "", result, err, tag ? "\t" : "", tag ? tag : "");
+    int n = snprintf(line, sizeof line, "%ld\t%s\t%s\t%s\t%s\t%ld\t%d%s%s\n", seq, call, cls, raw, phys, result, err, tag ? "\t" : "", tag ? tag : "");
     if (n > 0) syscall(SYS_write, g_logfd, line, (size_t)(n < (int)sizeof line ? n : (int)sizeof line - 1));
 }
 
